@@ -173,24 +173,44 @@ theorem NeedRel.mapSet {objs : List Require} (w : Want) (p : Int) (hp : heapGet 
           rw [if_neg e2, if_neg e']
           exact ⟨h1, h2⟩
 
-/-- loop 3 of SetRequireSeparateIndirect: `need[r.Mod.Path] = r` over the request = `needMap false` -/
-theorem loop3S_sim (isPrint : Int → Bool) (quote : Bytes → Bytes) (h : Heap) :
+theorem mem_mapSet {κ ν : Type} [DecidableEq κ] {m : List (κ × ν)} {k : κ} {v : ν} {q : κ × ν} (h : q ∈ GoRt.mapSet m k v) :
+    q ∈ m ∨ q = (k, v) := by
+  unfold GoRt.mapSet at h
+  split at h
+  · obtain ⟨x, hx, rfl⟩ := List.mem_map.1 h
+    by_cases e : x.1 = k
+    · rw [if_pos e]; exact Or.inr rfl
+    · rw [if_neg e]; exact Or.inl hx
+  · rcases List.mem_append.1 h with h | h
+    · exact Or.inl h
+    · simp only [List.mem_singleton] at h; exact Or.inr h
+
+/-- loop 3 of SetRequireSeparateIndirect: `need[r.Mod.Path] = r` over the request = `needMap false`; every value of the
+    map is one of the request pointers (`P`: any property of these) -/
+theorem loop3S_sim (isPrint : Int → Bool) (quote : Bytes → Bytes) (h : Heap) (P : Int → Prop) :
     ∀ (rest : List Want) (ps pre rx : List Int) (ri : Int) (acc : List Want) (np : List (Bytes × Int)) (fuel : Nat),
       rx = pre ++ ps → ri = (pre.length : Int) → ReqArgsS h.requires ps rest → NeedRel h.requires np acc → rest.length < fuel →
+      (∀ kp ∈ np, P kp.2) → (∀ p ∈ ps, P p) →
       ∃ need np', needMap false rest acc = .ok need ∧
-        File_SetRequireSeparateIndirect_loop3 isPrint quote rx h fuel ri np = .ok (len rx, np') ∧ NeedRel h.requires np' need
-  | [], [], pre, rx, ri, acc, np, fuel + 1, hrx, hri, _, hn, _ => by
+        File_SetRequireSeparateIndirect_loop3 isPrint quote rx h fuel ri np = .ok (len rx, np') ∧ NeedRel h.requires np' need ∧
+        ∀ kp ∈ np', P kp.2
+  | [], [], pre, rx, ri, acc, np, fuel + 1, hrx, hri, _, hn, _, hP, _ => by
     subst hrx hri
     have := not_lt_len_end pre
-    refine ⟨acc, np, rfl, ?_, hn⟩
+    refine ⟨acc, np, rfl, ?_, hn, hP⟩
     simp [File_SetRequireSeparateIndirect_loop3, this, pure, Except.pure, len_eq]
-  | w :: ws, p :: ps, pre, rx, ri, acc, np, fuel + 1, hrx, hri, hr, hn, hf => by
+  | w :: ws, p :: ps, pre, rx, ri, acc, np, fuel + 1, hrx, hri, hr, hn, hf, hP, hPs => by
     obtain ⟨ho, hr'⟩ := hr
     have hn' := hn.mapSet w p ho
-    obtain ⟨need, np', hm, hrun, hrel⟩ := loop3S_sim isPrint quote h ws ps (pre ++ [p]) rx (ri + 1) _ _ fuel (by simp [hrx])
-      (by simp [hri]) hr' hn' (by simp at hf; omega)
+    have hP' : ∀ kp ∈ GoRt.mapSet np w.path p, P kp.2 := by
+      intro kp hkp
+      rcases mem_mapSet hkp with h1 | h1
+      · exact hP kp h1
+      · rw [h1]; exact hPs p List.mem_cons_self
+    obtain ⟨need, np', hm, hrun, hrel, hPn⟩ := loop3S_sim isPrint quote h P ws ps (pre ++ [p]) rx (ri + 1) _ _ fuel (by simp [hrx])
+      (by simp [hri]) hr' hn' (by simp at hf; omega) hP' (fun q hq => hPs q (List.mem_cons_of_mem _ hq))
     subst hrx hri
-    refine ⟨need, np', ?_, ?_, hrel⟩
+    refine ⟨need, np', ?_, ?_, hrel, hPn⟩
     · unfold needMap
       cases hfind : acc.find? (·.path == w.path) with
       | none => simpa [hfind] using hm
@@ -198,8 +218,8 @@ theorem loop3S_sim (isPrint : Int → Bool) (quote : Bytes → Bytes) (h : Heap)
     · simp only [File_SetRequireSeparateIndirect_loop3, lt_len_cursor, decide_true, if_true, idxL_cursor, bind, Except.bind, ho,
         requireG_Mod, mvG_Path]
       exact hrun
-  | [], _ :: _, _, _, _, _, _, _, _, _, hr, _, _ => hr.elim
-  | _ :: _, [], _, _, _, _, _, _, _, _, hr, _, _ => hr.elim
+  | [], _ :: _, _, _, _, _, _, _, _, _, hr, _, _, _, _ => hr.elim
+  | _ :: _, [], _, _, _, _, _, _, _, _, hr, _, _, _, _ => hr.elim
 
 /-! ### the map `have : map[string]*Require` -/
 
